@@ -557,7 +557,8 @@ def check_object(ctx, cls, label, mod, kw, seed, lines, pend):
             "@ = utils.canonicalize_unimodalities(_)": "canonicalize_unimodalities",
             "if isinstance(_, tuple) and isinstance(_[0], int): @ = [_] else: @ = _": "wrap_single",
             "if isinstance(_, list) or isinstance(_, tuple): @ = list(_) elif _ is not None: @ = [_] * self.num_input_dims else: @ = [0] * self.num_input_dims": "linear_monotonicities",
-            "if _ is None: @ = float(num_keypoints) else: @ = float(_)": "float_or_num_keypoints"}
+            "if _ is None: @ = float(num_keypoints) else: @ = float(_)": "float_or_num_keypoints",
+            "as_tuples = lambda ps: [tuple(p) for p in ps] if ps else ps; @ = as_tuples(_)": "as_tuples"}
     dflt = sig_defaults(K)
     for k in row["keys"]:
       if k["reader"] == "attr" and k["norm"] in NORM and k["key"] in cfg:
